@@ -526,7 +526,7 @@ void ep3_mul_slide(ep3_t r, const ep3_t p, const bn_t k) {
 	ep3_t t[1 << (RLC_WIDTH - 1)], q;
 	int i, j;
 	size_t l;
-	uint8_t win[RLC_FP_BITS + 1];
+	uint8_t *win = NULL;
 
 	ep3_null(q);
 
@@ -535,6 +535,9 @@ void ep3_mul_slide(ep3_t r, const ep3_t p, const bn_t k) {
 		return;
 	}
 
+	/* The scalar is not reduced (p may lie outside the subgroup). */
+	win = RLC_ALLOCA(uint8_t, bn_bits(k) + 1);
+
 	RLC_TRY {
 		for (i = 0; i < (1 << (RLC_WIDTH - 1)); i ++) {
 			ep3_null(t[i]);
@@ -542,6 +545,10 @@ void ep3_mul_slide(ep3_t r, const ep3_t p, const bn_t k) {
 		}
 
 		ep3_new(q);
+
+		if (win == NULL) {
+			RLC_THROW(ERR_NO_MEMORY);
+		}
 
 		ep3_copy(t[0], p);
 		ep3_dbl(q, p);
@@ -560,7 +567,7 @@ void ep3_mul_slide(ep3_t r, const ep3_t p, const bn_t k) {
 #endif
 
 		ep3_set_infty(q);
-		l = RLC_FP_BITS + 1;
+		l = bn_bits(k) + 1;
 		bn_rec_slw(win, &l, k, RLC_WIDTH);
 		for (i = 0; i < l; i++) {
 			if (win[i] == 0) {
@@ -586,6 +593,7 @@ void ep3_mul_slide(ep3_t r, const ep3_t p, const bn_t k) {
 			ep3_free(t[i]);
 		}
 		ep3_free(q);
+		RLC_FREE(win);
 	}
 }
 
